@@ -21,7 +21,7 @@ META = dict(
          'all paraxial queries compared; non-trivial = finite non-zero focal length; distinct = rounded (f2, EPL, XPL, '
          'invariant) tuples',
     exhaustive=True,
-    bounds=dict(quick='words depth<=2 over 10 symbols + depth 3 over 6 symbols, every stop position, 14 valid '
+    bounds=dict(quick='words depth<=2 over 10 symbols + depth 3 over 6 symbols, every stop position, 14 valid + 3 immersion '
                       'configurations each; 24 samples',
                 thorough='words depth<=3 over 10 symbols + depth 4 over 6 symbols, every stop, 14 configurations, '
                          '4 numeric variants; samples'),
@@ -51,13 +51,19 @@ def alphabet(v):
 
 
 def configs(p):
+    """(object distance, aperture, field type, object medium, image medium)"""
     out = []
     for obj in (LZ.INF, p['od'][0], p['od'][1]):
         for ap in (('EPD', p['epd']), ('imageFNO', p['fno']), ('objectNA', p['na'])):
             for ft in ('angle', 'object_height'):
                 if math.isinf(obj) and (ft == 'object_height' or ap[0] == 'objectNA'):
                     continue
-                out.append((obj, ap, ft))
+                out.append((obj, ap, ft, None, None))
+    # immersion: object and image space indices differ from 1 and from each other
+    water, oil = ['ideal', 1.33, 0.0], ['ideal', 1.515, 0.0]
+    out.append((LZ.INF, ('EPD', p['epd']), 'angle', None, water))
+    out.append((p['od'][0], ('EPD', p['epd']), 'angle', water, None))
+    out.append((p['od'][1], ('objectNA', p['na']), 'object_height', oil, water))
     return out
 
 
@@ -227,14 +233,16 @@ def run_unit(unit):
     A = alphabet(v)
     surfs = LZ.with_stop(LZ.fix_thickness_signs([A[i] for i in unit['word']]), unit['stop'])
     first = True
-    for (obj, ap, ft) in configs(p):
+    for (obj, ap, ft, omat, imat) in configs(p):
         mf = p['ang'] if ft == 'angle' else p['h']
-        sp = LZ.spec(surfs, obj=obj, ap=ap, ftype=ft, fields=(0.0, 0.6 * mf, mf), waves=((0.5876, True),))
+        sp = LZ.spec(surfs, obj=obj, ap=ap, ftype=ft, fields=(0.0, 0.6 * mf, mf), waves=((0.5876, True),),
+                     obj_mat=omat, img=(S('plane', mat=imat) if imat else None))
         o = LZ.build(sp)
         rows_w = prescription.rows(sp, lambda m, prev: LZ.ref_index(m, 0.5876, prev))
         part.states += 1
         check_lens(part, o, rows_w, dict(word=unit['word'], stop=unit['stop'], variant=v),
-                   dict(obj=obj, ap=list(ap), ftype=ft), ap, ft, obj, mf, do_cardinal=first)
+                   dict(obj=obj, ap=list(ap), ftype=ft, obj_mat=omat, img_mat=imat), ap, ft, obj, mf,
+                   do_cardinal=first or bool(omat or imat))
         if first:
             linearity(part, o, rows_w, dict(word=unit['word'], stop=unit['stop'], variant=v))
         first = False
